@@ -546,11 +546,68 @@ func c20ShapeCases(r *mon.Run) {
 	}
 }
 
+// c20CaseHeaders: a case header (with leading comments, so that the statement has spare capacity) is the original;
+// every clone gets a body of its own. What one clone was given must not show in a sibling, before or after the
+// siblings are rendered, nor in the original.
+func c20CaseHeaders(r *mon.Run) {
+	headers := []func() *jen.Statement{
+		func() *jen.Statement { return jen.Case(jen.Lit(1)) },
+		func() *jen.Statement { return jen.Comment("first").Line().Case(jen.Lit(1)) },
+		func() *jen.Statement { return jen.Comment("a").Line().Comment("b").Line().Case(jen.Lit(1), jen.Lit(2)) },
+		func() *jen.Statement { return jen.Default() },
+		func() *jen.Statement { return jen.Comment("fallback").Line().Default() },
+		func() *jen.Statement { return jen.Line().Line().Case(jen.Id("x")) },
+	}
+	inSwitch := func(cl ...*jen.Statement) string {
+		items := make([]jen.Code, len(cl))
+		for i, c := range cl {
+			items[i] = c
+		}
+		out, fail := rawOf(jen.Func().Id("f").Params().Block(jen.Switch(jen.Id("v")).Block(items...)))
+		return out + fail
+	}
+	for hi, mk := range headers {
+		c := mon.Case{Gen: "case-header", Seed: r.Seed, Index: int64(hi)}
+		body := func(i int) *jen.Statement { return jen.Id(fmt.Sprintf("body%dq", i)).Call() }
+		// reference: every clone built from an original of its own
+		var want []string
+		for i := 0; i < 3; i++ {
+			want = append(want, inSwitch(mk().Clone().Block(body(i))))
+		}
+		wantOrig := inSwitch(mk().Block(jen.Id("origq").Call()))
+		// under test: one original, three clones extended one after the other, rendered in between and afterwards
+		orig := mk()
+		var clones []*jen.Statement
+		for i := 0; i < 3; i++ {
+			cl := orig.Clone().Block(body(i))
+			clones = append(clones, cl)
+			inSwitch(cl) // rendered as soon as it is complete
+		}
+		for i, cl := range clones {
+			if got := inSwitch(cl); got != want[i] {
+				r.Violate("append-leaks-to-other-handle", c, "case header #%d: clone %d of one original, given a Block of its own, renders\n%s\nwant (a clone of an original of its own)\n%s", hi, i, got, want[i])
+			}
+		}
+		orig.Block(jen.Id("origq").Call())
+		if got := inSwitch(orig); got != wantOrig {
+			r.Violate("clone-corruption", c, "case header #%d: the original, given its Block after three clones were extended and rendered, renders\n%s\nwant\n%s", hi, got, wantOrig)
+		}
+		for i, cl := range clones {
+			if got := inSwitch(cl); !strings.Contains(got, fmt.Sprintf("body%dq", i)) || strings.Contains(got, fmt.Sprintf("body%dq", (i+1)%3)) {
+				r.Violate("append-leaks-to-other-handle", c, "case header #%d: after the original was extended, clone %d renders\n%s", hi, i, got)
+			}
+		}
+		r.Eval(fmt.Sprintf("case-header|%d", hi), true)
+		r.Count("case_header_clone_families", 1)
+	}
+}
+
 func runC20(r *mon.Run) {
 	r.SetRule(fmt.Sprintf("%d fixed non-expression originals (case/default clauses followed by Block, select cases, if/else, for, whole switches, struct fields with tags, Dict values, generics, comments, Defs, Custom, Null/Empty) whose unmodified clone, clone of clone, clone taken after a render and clone rendered twice must render byte-identically to the original in the same context, formatted and NoFormat, and whose rendering must survive an append to a clone; then ", len(c20Shapes))+"random histories: 3-8 handles forming a tree by Clone() (one history in twelve: a chain of 35-76 clones of clones; a third of the clones are taken inside a Do callback), 10-60 steps appending 2-8 tokens with unique names (Dot, Op+Id, Add(k), Call, Index, chains — always a valid expression continuation, so handles can be rendered with Render itself) to a random handle, so that clone points with and without spare slice capacity both occur; after every step every handle is rendered with Render and inside a NoFormat File, and tokenised; offline checker against a list model admitting live and snapshot views of the original. non-trivial = history with >=1 clone; distinct by operation sequence")
 	r.Assume("a clone that has been appended to may show its original as it was at clone time or as it is now (both admitted: the statement promises isolation of originals and survival of clone tokens); an unmodified clone must render exactly like its original at every step, as the statement says")
 	c20NegControls(r)
 	c20ShapeCases(r)
+	c20CaseHeaders(r)
 	n := r.Pick(2500, 30000)
 	mon.Parallel(n, func(i int) { c20Case(r, int64(i)) })
 }
@@ -558,6 +615,10 @@ func runC20(r *mon.Run) {
 func replayC20(r *mon.Run, c mon.Case) {
 	if c.Gen == "shape" {
 		c20ShapeCases(r)
+		return
+	}
+	if c.Gen == "case-header" {
+		c20CaseHeaders(r)
 		return
 	}
 	c20Case(r, c.Index)
